@@ -362,4 +362,24 @@ PROPS = {
             plain("c10", "TestEnumFaults", shards_q=10, shards_t=15),
         ],
     },
+    "C13": {
+        "level": "exploration",
+        "rule": "race-detector build (-race). A trial starts 2-8 worker goroutines on ONE imapclient.Client, each running a generated list of "
+                "operations (NOOP, STATUS, FETCH consumed with Collect, SEARCH, UID SEARCH, APPEND with synchronising and non-synchronising "
+                "literal, LIST, CAPABILITY, Caps(), State(), Mailbox(), ENABLE, STORE, IDLE..DONE) against a scripted auto-responder that "
+                "may answer pipelined commands out of order where RFC 9051 5.5 allows it, while a disruptor (none / server closes / server "
+                "closes in the middle of a response line / another goroutine calls Client.Close) fires after a generated number of commands; "
+                "GOMAXPROCS is drawn from {2,4,16}. Oracles: the Go race detector (any report fails the case), the server-side duplicate-tag "
+                "detector, every submitted command's Wait/Collect/Close returns within the watchdog exactly once (a second completion panics "
+                "on the closed done channel and is reported as a crash), Client.Close returns, and without a disruptor every command "
+                "succeeds. Non-trivial: at least two commands were in flight (submitted, not completed) when the disruptor fired or when "
+                "the busiest moment of a disruptor-free trial was reached; distinct by rendered trial.",
+        "assumptions": ["schedules are produced by the Go scheduler under varying GOMAXPROCS, not enumerated; a race that needs a schedule the scheduler never produced is not seen (stated limit of the technique)",
+                        "a schedule-dependent failure is reported with the trial, the operation history and the goroutine dump as replay file; rapid cannot shrink it",
+                        "'returns' means within 15 s on in-memory I/O"],
+        "units": [
+            plain("c13", "TestReplayScenarios", race=True),
+            rapid("c13", "TestPropConcurrent", quick=(500, 6), thorough=(20000, 14), race=True, shrinktime="20s"),
+        ],
+    },
 }
